@@ -154,6 +154,9 @@ def main(argv):
         if pm["has_gen"]:
             for i in range(shards):
                 tasks.append((prop, pm["name"], tier, vseed * 1000 + i, n, False))
+        if pm.get("fuzz") and tier == "thorough":
+            for i in range(pm["fuzz"][0]):
+                tasks.append((prop, pm["name"], tier, vseed * 1000 + 500 + i, pm["fuzz"][1], "fuzz"))
     nproc = min(16 if tier == "thorough" else 8, max(1, len(tasks)))
     nproc = int(os.environ.get("VF_PROCS", nproc))
     results = []
@@ -190,6 +193,8 @@ def main(argv):
         tolerated.update(r.get("tolerated", []))
         if r.get("exhaustive"):
             exhaustive_parts.append(r["part"])
+        if "fuzz_executions" in r:
+            counters[r["part"] + "/fuzz_executions"] = counters.get(r["part"] + "/fuzz_executions", 0) + r["fuzz_executions"]
         if r["error"]:
             errors.append(f"part {r['part']} seed {r['seed']}: {r['error']}")
         if r["violation"]:
@@ -267,7 +272,7 @@ def _describe(args):
             "rule": mod.RULE,
             "assumptions": list(getattr(mod, "ASSUMPTIONS", [])),
             "parts": [
-                {"name": p.name, "budget": list(p.budget(tier)), "has_enum": p.enumerate_cases is not None,
+                {"name": p.name, "budget": list(p.budget(tier)), "has_enum": p.enumerate_cases is not None, "fuzz": p.fuzz,
                  "has_gen": p.strategy is not None or p.machine is not None}
                 for p in mod.parts(tier)
             ],
